@@ -25,6 +25,16 @@ def make_plan(ths, tier, rnd):
 
 
 def run(tier, replay):
-    return modelcheck.run(PROP, tier, replay, make_plan,
-                          explanation="families: one fact set, k reorderings with interleaved close() calls and redundant "
+    # design level: the close loop of EqlogEval running the flat rules EXTRACTED from the generated
+    # module (ages as emitted) must refine the reference chase on every history of the scope - i.e.
+    # the emitted semi-naive plans compute what naive evaluation computes
+    design = [("poset", {"plan": True, "maxels": 3, "maxid": 3, "maxasserts": 2, "thorough_only": {"maxasserts": 3}}),
+              ("pend", {"plan": True, "maxels": 1, "maxid": 3, "maxasserts": 2, "thorough_only": {"maxels": 2, "maxid": 4}}),
+              ("diag", {"plan": True, "maxels": 2, "maxid": 2, "maxasserts": 2})]
+    if tier == "thorough":
+        design += [("misc", {"plan": True, "maxels": 1, "maxid": 2, "maxasserts": 2}),
+                   ("trans_refl", {"plan": True, "maxels": 3, "maxid": 3, "maxasserts": 2})]
+    return modelcheck.run(PROP, tier, replay, make_plan, design=design,
+                          explanation="design: EqlogEval with the extracted plan refines the chase (TLC, all histories of the scope; "
+                                      "counterexamples are replayed on the generated code); families: one fact set, k reorderings with interleaved close() calls and redundant "
                                       "re-assertions, plus a second close() of the closed model")
